@@ -135,11 +135,19 @@ def dir_skips(ctx, R, fn, sites, wr=lambda a: a, also=()):
                 any(any(y is nd for y in walk(iff)) for nd in sites)
             if not skips:
                 continue
-            ats = [wr(a) for a, pol in cxa.cfacts(parts[0], True) + cxa.cfacts(parts[0], False) if isinstance(a, str)]
-            txt = wr(cxa.canon(parts[0]))
-            okc = bool(ats) and all(_re2.match(r"^mesh_neighbors\[[^\]]*\] == (-1|[a-z])$", a) or a.startswith("mesh_chstt[") or
-                                    any(_re2.match(p_, a) for p_ in also) for a in ats)
-            okc = okc or bool(_re2.match(r"^!?\(?mesh_neighbors\[[^\]]*\] (==|!=) -1\)?$", txt))
+            # judged on the leaves of the condition (what && || ! combine), so that an opaque sub-condition is not overlooked
+            def leaves(c_):
+                c_ = strip(c_, casts=True)
+                if c_.get("kind") == "BinaryOperator" and c_.get("opcode") in ("&&", "||"):
+                    return leaves(kids(c_)[0]) + leaves(kids(c_)[1])
+                if c_.get("kind") == "UnaryOperator" and c_.get("opcode") == "!":
+                    return leaves(kids(c_)[0])
+                return [c_]
+            lv = [wr(cxa.canon(l_)) for l_ in leaves(parts[0])]
+            lv = [a[1:-1] if a.startswith("(") and a.endswith(")") and a.count("(") == 1 else a for a in lv]
+            okc = bool(lv) and all(_re2.match(r"^mesh_neighbors\[[^\]]*\] (==|!=) (-1|[a-z])$", a) or
+                                   _re2.match(r"^(-1|[a-z]) (==|!=) mesh_neighbors\[[^\]]*\]$", a) or a.startswith("mesh_chstt[") or
+                                   any(_re2.match(p_, a) for p_ in also) for a in lv)
             ctx.check(okc, R, iff, fn.qual, "test inside the direction loop: %s" % text(parts[0])[:60],
                       "`neighbour != -1` (or the cell itself)", "the exchange with a neighbour is skipped under `%s`: a face "
                       "between two cells is left out (two cells of a periodic axis of length 2 share two faces; the neighbour "
